@@ -7,7 +7,8 @@
         octets the list reader returns and a state representing the new suffix;
         nothing is assumed outside the precondition) the decoder returns the same
         result and leaves the reader at the same place. *)
-From RL Require Import Model.Decode Model.Reader Proofs.ReaderParam Proofs.Totality Proofs.PosReader.
+From RL Require Import Model.Decode Model.Reader Proofs.ReaderParam Proofs.Totality Proofs.PosReader
+  Proofs.NoReadError.
 
 Theorem C02_no_contract_violation : forall o b, bytes_ok b = true ->
   m_decode o b <> UB /\ (forall k, m_decode o b <> Panic k) /\ m_decode o b <> OutOfFuel.
@@ -33,6 +34,18 @@ Theorem C02_type_parametric : forall I (C : Conforms I) t r,
                grun I (decode_avp t) r = Val (fst x, r') /\ repr C r' = snd x.
 Proof. exact type_any_reader. Qed.
 
+(** the checked request [bytes(n)] is likewise only ever made for octets that remain: its [None]
+    answer, which the source turns into [AVPReadError] / [MessageReadError], never occurs, so
+    those two error variants are never reported *)
+Theorem C02_bytes_always_available : forall o b, bytes_ok b = true ->
+  forall es rest, m_decode o b = Val (Err es, rest) ->
+  forallb (fun e => negb (is_read_error e)) es = true.
+Proof. exact decode_no_read_error. Qed.
+
+Theorem C02_bytes_always_available_avps : forall b, bytes_ok b = true ->
+  forall l rest, m_avps b = Val (l, rest) -> forallb res_clean l = true.
+Proof. exact avps_no_read_error. Qed.
+
 (** a reader with a different representation (shared buffer + position + end, unchecked reads
     that check nothing) conforms, hence decodes identically *)
 Theorem C02_pos_reader : forall o (r : pr), bytes_ok (p_repr r) = true ->
@@ -56,3 +69,5 @@ Print Assumptions C02_reader_parametric.
 Print Assumptions C02_avps_parametric.
 Print Assumptions C02_type_parametric.
 Print Assumptions C02_pos_reader.
+Print Assumptions C02_bytes_always_available.
+Print Assumptions C02_bytes_always_available_avps.
